@@ -70,7 +70,10 @@ def gen(ctx, model):
         for b in specials:
             add("gf128mul %s %s" % (a, b), "gf128mul:special")
     for i in range(60 if not thorough else 2000):
-        add("gf128mul %s %s" % (r.bytes(16).hex(), r.bytes(16).hex()), "gf128mul:random")
+        a_, b_ = r.bytes(16).hex(), r.bytes(16).hex()
+        add("gf128mul %s %s" % (a_, b_), "gf128mul:random")
+        if i % 4 == 0:      # the swapped pair (C04b_gf128_mul_limbs_comm: the model gives the same bytes)
+            add("gf128mul %s %s" % (b_, a_), "gf128mul:random-swapped")
     for a in specials + [r.bytes(16).hex() for _ in range(20)]:
         add("gf128x2 %s" % a, "gf128x2:%s" % ("special" if a in specials else "random"))
         add("gf128one %s" % a, "gf128one:%s" % ("special" if a in specials else "random"))
@@ -206,6 +209,10 @@ def gen(ctx, model):
     for nw in range(0, 6):
         add("zucks %s %s %d" % (r.bytes(16).hex(), r.bytes(16).hex(), nw), "zucks:n%s" % ("0" if nw == 0 else "n"))
         add("zuc256ks %s %s %d" % (r.bytes(32).hex(), r.bytes(23).hex(), nw), "zuc256ks:n%s" % ("0" if nw == 0 else "n"))
+    # one state, several generate calls, keyword and keystream mixed (C04b_zuc_keystream_chunking / _keyword_is_one_word_keystream)
+    for items in (["1", "1"], ["w", "2"], ["2", "w", "0", "3"], ["w", "w", "w"], ["0", "4", "w"], [r.choice(["w", "0", "1", "2", "5"]) for _ in range(r.range(2, 6))]):
+        add("zuckss %s %s %s" % (r.bytes(16).hex(), r.bytes(16).hex(), ",".join(items)), "zuckss:calls%d:%s" % (min(len(items), 4), "mixed" if "w" in items else "ks"))
+        add("zuc256kss %s %s %s" % (r.bytes(32).hex(), r.bytes(23).hex(), ",".join(items)), "zuc256kss:calls%d:%s" % (min(len(items), 4), "mixed" if "w" in items else "ks"))
     add("zucks %s %s 2" % ("00" * 16, "00" * 16), "zucks:std-vector")
     add("zucks %s %s 2" % ("ff" * 16, "ff" * 16), "zucks:std-vector")
     add("zucks 3d4c4be96a82fdaeb58f641db17b455b 84319aa8de6915ca1f6bda6bfbd8c766 2", "zucks:std-vector")
